@@ -386,6 +386,14 @@ def dispatch(E, c, tc, args):
             d.items[k] = d.items[-1]
             d.items.pop()
             return x
+    if re.match(r"^std::vec::Vec::<.*>::remove$", c, re.S) and len(args) == 2 and isinstance(deref(E, args[1]), VInt):
+        r = ref_chain(E, args[0])
+        d = E.read_ref(r)
+        if isinstance(d, VSeq) and d.kind == "vec":
+            k = conc(E, deref(E, args[1]).t, "remove index")
+            if k >= len(d.items):
+                raise PathAbort("panic", "removal index (is %d) should be < len (is %d)" % (k, len(d.items)))
+            return d.items.pop(k)
     if re.search(r"<impl \[.*\]>::sort_by_key::<", c, re.S) and len(args) == 2:
         # stable insertion sort (ascending) on the keys the real key closure returns; every comparison is a solver-checked fork
         r = ref_chain(E, args[0])
